@@ -61,6 +61,9 @@ def run(ctx):
     sanitiser.check(ctx, 'C14.4')
     ctx.floor('C14.4', 3, 'returns / not-found exit of coord_to_index')
     ctx.rule('C14.5', 'a failed bounds guard raises IndexError')
+    ctx.rule('C14.6', 'the diagonal length functions (accepted as real extents above) return exactly the number of cells on the diagonal')
+    from .. import diaglen
+    diaglen.check(ctx, 'C14.6')
     guard_exceptions(ctx, None)
     B = BoundsAnalysis(P, G)
     entries = public_entry_points(P, G, B)
